@@ -20,6 +20,9 @@ KINDS = {
     "float": lambda k: [None, 0.5, 2.25, -1.75][k],
     "bool": lambda k: [None, True, False, True][k],
     "datetime": lambda k: __import__("pandas").Timestamp(["", "2020-01-02", "2021-03-04 05:06:07", "1999-12-31"][k]),
+    # keys that differ only below the microsecond / only in the microsecond (Partition.tla: TextInjective)
+    "datetime_ns": lambda k: __import__("pandas").Timestamp(["", "2021-03-04 05:06:07.000000007", "2021-03-04 05:06:07.000000008",
+                                                             "2021-03-04 05:06:07.000001"][k]),
     "str": lambda k: [None, "alpha", "b c", "Zeta-9"][k],
     "numstr": lambda k: [None, "007", "42", "1e3"][k],
     "cat": lambda k: [None, "ca", "cb", "cc"][k],
@@ -38,7 +41,7 @@ def concrete_frame(pd, case, kind1, kind2):
             return pd.Series([np.nan if v is None else v for v in vals], dtype="float64")
         if kind == "bool":
             return pd.array(vals, dtype="boolean") if any(v is None for v in vals) else pd.Series(vals, dtype="bool")
-        if kind == "datetime":
+        if kind in ("datetime", "datetime_ns"):
             return pd.Series([pd.NaT if v is None else v for v in vals], dtype="datetime64[ns]")
         if kind == "cat":
             return pd.Categorical(vals, categories=["ca", "cb", "cc", "unused"])
@@ -54,7 +57,7 @@ def concrete_frame(pd, case, kind1, kind2):
 
 def same_value(kind, got, want):
     import pandas as pd
-    if kind == "datetime":
+    if kind in ("datetime", "datetime_ns"):
         try:
             return pd.Timestamp(got) == want
         except Exception:
@@ -107,32 +110,41 @@ def replay_chunk(args):
                                 rel = os.path.relpath(os.path.join(root, fn), path)
                                 fv = PR.read_file(open(os.path.join(root, fn), "rb").read(), strict=False)
                                 real[rel] = sorted(fv.column("rid")) if not fv.problems else None
+                    # expectation from the specification's files only (no function of the tree under test is used):
+                    # one file per (concrete key tuple, chunk); abstract keys with the same concrete value (bool 1 and 3) merge
                     want = {}
                     for f in case["files"]:
-                        segs = []
-                        for pc, kk, kind in zip(pcols, f["key"], (k1, k2)):
-                            val = KINDS[kind](kk)
-                            # hive: name=path_string(value); drill: "%s" % value  (transcribed from partition_on_columns)
-                            segs.append(("%s=%s" % (pc, fp.util.path_string(val))) if scheme == "hive" else "%s" % (val,))
-                        rel = "/".join(segs + ["part.%d.parquet" % f["part"]])
-                        # two abstract keys may render to the same text (bool): their rows share the file
-                        want[rel] = sorted(want.get(rel, []) + [9000 + 3 * (r - 1) for r in f["rows"]])
-                    # distinct abstract keys may render to the same text (bool k=1 and k=3): merge expectation per path
-                    if real != want:
-                        merged = {}
-                        for rel, rows in want.items():
-                            merged.setdefault(rel, [])
-                            merged[rel] = sorted(merged[rel] + rows)
-                        if real != merged:
-                            if None in real.values():
-                                out["viol"].append((dict(sig, what="a part file is not a valid parquet file"), ci))
-                            elif sorted(sum(real.values(), [])) != sorted(sum(want.values(), [])):
-                                out["viol"].append((dict(sig, what="rows lost or duplicated across part files"), ci))
-                            elif set(real) != set(merged):
-                                out["viol"].append((dict(sig, what="rows stored under a different directory than their key values"), ci))
-                            else:
-                                out["viol"].append((dict(sig, what="a row is stored in a directory that is not its key's"), ci))
-                            continue
+                        ck = tuple(repr(KINDS[kind](kk)) for kk, kind in zip(f["key"][:len(pcols)], (k1, k2)))
+                        want.setdefault((ck, f["part"]), [])
+                        want[(ck, f["part"])] = sorted(want[(ck, f["part"])] + [9000 + 3 * (r - 1) for r in f["rows"]])
+                    if None in real.values():
+                        out["viol"].append((dict(sig, what="a part file is not a valid parquet file"), ci))
+                        continue
+                    if sorted(sum(real.values(), [])) != sorted(sum(want.values(), [])):
+                        out["viol"].append((dict(sig, what="rows lost or duplicated across part files"), ci))
+                        continue
+                    if sorted(real.values()) != sorted(want.values()):
+                        out["viol"].append((dict(sig, what="rows grouped into part files differently from their key values"), ci))
+                        continue
+                    # directory <-> key value must be one to one, the file name must carry the chunk number
+                    rid2key = {rid: key for key, rids in want.items() for rid in rids}
+                    dir_of, key_of, badname = {}, {}, False
+                    for rel, rids in real.items():
+                        (ck, part) = rid2key[rids[0]]
+                        dname = os.path.dirname(rel)
+                        dir_of.setdefault(ck, set()).add(dname)
+                        key_of.setdefault(dname, set()).add(ck)
+                        if os.path.basename(rel) != "part.%d.parquet" % part:
+                            badname = True
+                        segs = dname.split("/")
+                        if len(segs) != len(pcols) or (scheme == "hive" and any(not sg.startswith(pc + "=") for sg, pc in zip(segs, pcols))):
+                            badname = True
+                    if any(len(v) != 1 for v in dir_of.values()) or any(len(v) != 1 for v in key_of.values()):
+                        out["viol"].append((dict(sig, what="rows stored under a different directory than their key values"), ci))
+                        continue
+                    if badname:
+                        out["viol"].append((dict(sig, what="part file or directory not named after chunk number / column=value"), ci))
+                        continue
                     # ---- read back ----
                     try:
                         pf = fp.ParquetFile(path)
@@ -194,8 +206,10 @@ def replay_chunk(args):
 def export(work, tag, **consts):
     cfg = os.path.join(work, "part-%s.cfg" % tag)
     c = {k: ("<- " + v if isinstance(v, str) else v) for k, v in consts.items()}
+    c.setdefault("PathTimePrecision", "ns")
     T.write_cfg(cfg, spec="Spec", constants=c, invariants=["RowsRoutedToTheirKeyDirectory", "MultisetPreserved",
-                                                           "NoEmptyFile", "KindPreservedWithMeta", "Export"], check_deadlock=False)
+                                                           "NoEmptyFile", "KindPreservedWithMeta", "TextInjective",
+                                                           "TextParsesBack", "Export"], check_deadlock=False)
     res = T.run_tlc("PartitionMC", cfg, work, timeout=3000, coverage=True)
     if not res.ok:
         raise T.TLCError("Partition model violates %s\n%s" % (res.violated, res.out[-1500:]))
@@ -215,12 +229,21 @@ def run(tier, seed):
 
 
 def _run(ev, work, thorough):
+    # model sensitivity: a path text that drops the sub-microsecond part is not injective
+    cfg = os.path.join(work, "part-mut.cfg")
+    T.write_cfg(cfg, spec="Spec", constants=dict(NRows=1, KeyVals="<- K2", KeyVals2="<- One", Offsets="<- Offs4",
+                                                 PathTimePrecision="us"),
+                invariants=["TextInjective"], check_deadlock=False)
+    mres = T.run_tlc("PartitionMC", cfg, work, timeout=600)
+    if "TextInjective" not in (mres.violated or ""):
+        raise T.TLCError("Partition with PathTimePrecision = us must violate TextInjective")
+    ev.add_tlc("Partition mutant PathTimePrecision=us: TextInjective violated", mres)
     one, r1 = export(work, "one", NRows=4 if not thorough else 5, KeyVals="K3", KeyVals2="One", Offsets="Offs4")
     ev.add_tlc("Partition: one partition column, every frame x row-group split", r1, frames=len(one))
     two, r2 = export(work, "two", NRows=3 if not thorough else 4, KeyVals="K2n", KeyVals2="K2", Offsets="Offs4")
     ev.add_tlc("Partition: two partition columns", r2, frames=len(two))
-    kinds1 = [("int", "str"), ("float", "str"), ("bool", "str"), ("datetime", "str"), ("str", "str"), ("numstr", "str"), ("cat", "str")]
-    kinds2 = [("int", "str"), ("str", "numstr"), ("datetime", "bool"), ("cat", "int"), ("float", "cat")]
+    kinds1 = [("int", "str"), ("float", "str"), ("bool", "str"), ("datetime", "str"), ("datetime_ns", "str"), ("str", "str"), ("numstr", "str"), ("cat", "str")]
+    kinds2 = [("int", "str"), ("str", "numstr"), ("datetime", "bool"), ("cat", "int"), ("float", "cat"), ("datetime_ns", "int")]
     base = os.path.join(work, "part")
     os.makedirs(base)
     jobs = []
